@@ -15,6 +15,17 @@ covered by a thread in flight; mutual exclusion of the three kinds of locks is s
 namespace Hive.Derived
 open Hive.Conc
 
+def Kont.isW : Kont → Bool
+  | .writer _ => true
+  | .ctor _ => false
+
+def Kont.todo : Kont → List Nat
+  | .writer _ => []
+  | .ctor rest => rest
+
+/-! Everything auxiliary lives in `Hive.Derived.DVar`; the results are stated in `Hive.Derived`. -/
+namespace DVar
+
 /-! ## Small helpers -/
 
 @[simp] theorem setAt_same {α : Type} (g : Nat → α) (i : Nat) (v : α) : setAt g i v i = v := by
@@ -199,14 +210,6 @@ theorem dvStep_sound {n : Nat} {f : (Nat → Int) → Int} {s s' : DVS} {t t' : 
 
 /-! ## Thread classifications -/
 
-def Kont.isW : Kont → Bool
-  | .writer _ => true
-  | .ctor _ => false
-
-def Kont.todo : Kont → List Nat
-  | .writer _ => []
-  | .ctor rest => rest
-
 /-- in flight for input `j` -/
 def inflight (j : Nat) : DVT → Bool
   | .wrote i _ _ => j == i
@@ -263,7 +266,7 @@ def E2 (s : DVS) (ts : List DVT) : Prop := ∀ j, ts.countP (holdsEx j) = if s.e
 def E3 (s : DVS) (ts : List DVT) : Prop := ts.countP holdsD = if s.dUpd then 1 else 0
 
 /-- closes a counting goal by cases on the lock bit `c` -/
-macro "count_tac2 " c:term : tactic =>
+macro "dvar_count " c:term : tactic =>
   `(tactic| (cases hc : ($c : Bool) <;> simp [holdsUpd, holdsEx, holdsD, Kont.isW, setAt, *] at * <;> omega))
 
 variable {n : Nat} {f : (Nat → Int) → Int} {s s' : DVS} {t t' : DVT} {pre post : List DVT}
@@ -278,8 +281,8 @@ theorem E1_pres (h : E1 s (pre ++ t :: post)) (hs : DVStep n f s t s' t') : E1 s
   cases hs with
   | lock i v sc h =>
     by_cases hij : j = i
-    · subst hij; count_tac2 (s.upd j)
-    · count_tac2 (s.upd j)
+    · subst hij; dvar_count (s.upd j)
+    · dvar_count (s.upd j)
   | same i v sc h => simpa [holdsUpd] using hj
   | write i v sc h hr => simpa [holdsUpd] using hj
   | writeU i v sc h hr => simpa [holdsUpd] using hj
@@ -293,8 +296,8 @@ theorem E1_pres (h : E1 s (pre ++ t :: post)) (hs : DVStep n f s t s' t') : E1 s
   | relExC i rest => simpa [holdsUpd, Kont.isW] using hj
   | relU i sc =>
     by_cases hij : j = i
-    · subst hij; count_tac2 (s.upd j)
-    · count_tac2 (s.upd j)
+    · subst hij; dvar_count (s.upd j)
+    · dvar_count (s.upd j)
 
 theorem E2_pres (h : E2 s (pre ++ t :: post)) (hs : DVStep n f s t s' t') : E2 s' (pre ++ t' :: post) := by
   intro j
@@ -310,24 +313,24 @@ theorem E2_pres (h : E2 s (pre ++ t :: post)) (hs : DVStep n f s t s' t') : E2 s
   | writeU i v sc h hr => simpa [holdsEx] using hj
   | enter i v sc h =>
     by_cases hij : j = i
-    · subst hij; count_tac2 (s.ex j)
-    · count_tac2 (s.ex j)
+    · subst hij; dvar_count (s.ex j)
+    · dvar_count (s.ex j)
   | register i rest h hr =>
     by_cases hij : j = i
-    · subst hij; count_tac2 (s.ex j)
-    · count_tac2 (s.ex j)
+    · subst hij; dvar_count (s.ex j)
+    · dvar_count (s.ex j)
   | begin i v k h => simpa [holdsEx] using hj
   | read i v snap j0 todo k => simpa [holdsEx] using hj
   | commit i v snap k => simpa [holdsEx] using hj
   | relD i k => simpa [holdsEx] using hj
   | relExW i sc =>
     by_cases hij : j = i
-    · subst hij; count_tac2 (s.ex j)
-    · count_tac2 (s.ex j)
+    · subst hij; dvar_count (s.ex j)
+    · dvar_count (s.ex j)
   | relExC i rest =>
     by_cases hij : j = i
-    · subst hij; count_tac2 (s.ex j)
-    · count_tac2 (s.ex j)
+    · subst hij; dvar_count (s.ex j)
+    · dvar_count (s.ex j)
   | relU i sc => simpa [holdsEx] using hj
 
 theorem E3_pres (h : E3 s (pre ++ t :: post)) (hs : DVStep n f s t s' t') : E3 s' (pre ++ t' :: post) := by
@@ -344,10 +347,10 @@ theorem E3_pres (h : E3 s (pre ++ t :: post)) (hs : DVStep n f s t s' t') : E3 s
   | writeU i v sc h hr => simpa [holdsD] using hj
   | enter i v sc h => simpa [holdsD] using hj
   | register i rest h hr => simpa [holdsD] using hj
-  | begin i v k h => count_tac2 (s.dUpd)
+  | begin i v k h => dvar_count (s.dUpd)
   | read i v snap j0 todo k => simpa [holdsD] using hj
   | commit i v snap k => simpa [holdsD] using hj
-  | relD i k => count_tac2 (s.dUpd)
+  | relD i k => dvar_count (s.dUpd)
   | relExW i sc => simpa [holdsD] using hj
   | relExC i rest => simpa [holdsD] using hj
   | relU i sc => simpa [holdsD] using hj
@@ -512,5 +515,305 @@ theorem I4_pres (hE : E2 s (pre ++ t :: post)) (h5 : I5 s (pre ++ t :: post)) (h
     | inCb i v k => intro hk; exact key i v (by simp [holdsEx]) (by simp [inflight]) (hu' hk)
     | comp i v snap todo k => intro hk; exact key i v (by simp [holdsEx]) (by simp [inflight]) (hu' hk)
     | _ => trivial
+
+/-! ## Coverage of stale reads by threads in flight -/
+
+def committing : DVT → Bool
+  | .comp _ _ _ [] _ => true
+  | _ => false
+
+theorem committing_holdsD {t : DVT} (h : committing t = true) : holdsD t = true := by
+  cases t with
+  | comp i v snap todo k => rfl
+  | _ => simp [committing] at h
+
+/-- a thread stays in flight until it commits -/
+theorem inflight_keep (hs : DVStep n f s t s' t') (j : Nat) (hin : inflight j t = true) :
+    inflight j t' = true ∨ committing t = true := by
+  cases hs <;> simp_all [inflight, committing]
+
+/-- every change of a (now) registered input, and every registration, puts the moving thread in flight -/
+theorem cover (hs : DVStep n f s t s' t') (j : Nat) (hreg : s'.reg j = true)
+    (hch : s.reg j = false ∨ s'.val j ≠ s.val j) : inflight j t' = true := by
+  cases hs with
+  | write i v sc hv hr =>
+    by_cases hij : j = i
+    · simp [inflight, hij]
+    · rcases hch with h | h
+      · simp [show s.reg j = true from hreg] at h
+      · simp [setAt, hij] at h
+  | writeU i v sc hv hr =>
+    by_cases hij : j = i
+    · subst hij; simp [hr] at hreg
+    · rcases hch with h | h
+      · simp [show s.reg j = true from hreg] at h
+      · simp [setAt, hij] at h
+  | register i rest he hr =>
+    by_cases hij : j = i
+    · simp [inflight, hij]
+    · rcases hch with h | h
+      · simp [setAt, hij, h] at hreg
+      · exact absurd rfl h
+  | _ =>
+    rcases hch with h | h
+    · simp [show s.reg j = true from hreg] at h
+    · exact absurd rfl h
+
+/-- the reads done so far by a recompute are current, or covered by a thread in flight -/
+def compOK (n : Nat) (val : Nat → Int) (reg : Nat → Bool) (ts : List DVT) : DVT → Prop
+  | .comp i _ snap todo _ => ∀ j, j ≠ i → j < n → j ∉ todo → reg j = true → snap j ≠ val j →
+      ∃ w ∈ ts, inflight j w = true
+  | _ => True
+
+def I3 (n : Nat) (s : DVS) (ts : List DVT) : Prop := ∀ u ∈ ts, compOK n s.val s.reg ts u
+
+theorem I3_pres (hE : E3 s (pre ++ t :: post)) (h : I3 n s (pre ++ t :: post)) (hs : DVStep n f s t s' t') :
+    I3 n s' (pre ++ t' :: post) := by
+  intro u hu
+  rcases mem_mid.1 hu with rfl | hu2
+  · have ht := h t mem_mid_self
+    cases hs with
+    | begin i v k hd =>
+      intro j hji hjn hjt
+      exact absurd (by simp [List.mem_filter, hjn, hji]) hjt
+    | read i v snap j0 todo k =>
+      intro j hji hjn hjt hreg hne
+      by_cases hj0 : j = j0
+      · subst hj0; simp at hne
+      · rw [setAt_other _ _ _ _ hj0] at hne
+        exact exists_mid (ht j hji hjn (by simp [hj0, hjt]) hreg hne) (by simp [inflight])
+    | _ => trivial
+  · have hu' := h u (mem_mid_rest hu2)
+    cases u with
+    | comp i v snap todo k =>
+      intro j hji hjn hjt hreg hne
+      by_cases hc : s.reg j = true ∧ s'.val j = s.val j
+      · rw [hc.2] at hne
+        refine exists_mid (hu' j hji hjn hjt hc.1 hne) (fun hin => ?_)
+        rcases inflight_keep hs j hin with h' | h'
+        · exact h'
+        · have := excl_of_count hE (committing_holdsD h') hu2
+          simp [holdsD] at this
+      · refine exists_new (cover hs j hreg ?_)
+        cases hr : s.reg j with
+        | false => exact Or.inl rfl
+        | true => exact Or.inr (fun e => hc ⟨hr, e⟩)
+    | _ => trivial
+
+/-! ## The committed vector -/
+
+/-- every difference between the committed vector and the inputs is covered by a thread in flight -/
+def I2 (s : DVS) (ts : List DVT) : Prop :=
+  ∀ j, s.reg j = true → s.seen j ≠ s.val j → ∃ w ∈ ts, inflight j w = true
+
+theorem isWrote_inflight {j : Nat} {w : DVT} (h : isWrote j w = true) : inflight j w = true := by
+  cases w <;> simp_all [isWrote, inflight]
+
+theorem seen_same (hs : DVStep n f s t s' t') (hnc : committing t = false) : s'.seen = s.seen := by
+  cases hs <;> first | rfl | simp [committing] at hnc
+
+theorem I2_pres (h3 : I3 n s (pre ++ t :: post)) (h4 : I4 s (pre ++ t :: post)) (h6 : I6 s (pre ++ t :: post))
+    (h7 : I7 n s) (h : I2 s (pre ++ t :: post)) (hs : DVStep n f s t s' t') : I2 s' (pre ++ t' :: post) := by
+  intro j hreg hne
+  cases hcm : committing t with
+  | false =>
+    rw [seen_same hs hcm] at hne
+    by_cases hc : s.reg j = true ∧ s'.val j = s.val j
+    · rw [hc.2] at hne
+      refine exists_mid (h j hc.1 hne) (fun hin => ?_)
+      rcases inflight_keep hs j hin with h' | h'
+      · exact h'
+      · simp [hcm] at h'
+    · refine exists_new (cover hs j hreg ?_)
+      cases hr : s.reg j with
+      | false => exact Or.inl rfl
+      | true => exact Or.inr (fun e => hc ⟨hr, e⟩)
+  | true =>
+    have ht3 := h3 t mem_mid_self
+    have ht4 := h4 t mem_mid_self
+    have ht6 := h6 t mem_mid_self
+    cases hs with
+    | commit i v snap k =>
+      by_cases hij : j = i
+      · subst hij
+        have hne' : s.val j ≠ v := by
+          intro e; apply hne; simp [e]
+        cases hk : k.isW with
+        | true => exact absurd (ht6 hk) hne'
+        | false =>
+          obtain ⟨w, hw, hq⟩ := exists_mid (ht4 hk hne') (t' := DVT.rel1 j k) (by simp [isWrote])
+          exact ⟨w, hw, isWrote_inflight hq⟩
+      · have hne' : snap j ≠ s.val j := by
+          intro e; apply hne; simp [setAt, hij, e]
+        exact exists_mid (ht3 j hij (h7 j hreg) (by simp) hreg hne') (by simp [inflight, hij])
+    | _ => simp [committing] at hcm
+
+/-! ## The combined invariant -/
+
+structure Inv (n : Nat) (f : (Nat → Int) → Int) (c : Cfg DVS DVT) : Prop where
+  e1 : E1 c.1 c.2
+  e2 : E2 c.1 c.2
+  e3 : E3 c.1 c.2
+  c1 : C1 n c.2
+  i7 : I7 n c.1
+  i5 : I5 c.1 c.2
+  i6 : I6 c.1 c.2
+  i4 : I4 c.1 c.2
+  i3 : I3 n c.1 c.2
+  i2 : I2 c.1 c.2
+  i1 : I1 f c.1 c.2
+  p : P n c.1 c.2
+
+theorem Inv_step (a b : Cfg DVS DVT) (h : Inv n f a) (hs : Step (dvSys n f) a b) : Inv n f b := by
+  cases hs with
+  | mk s pre t post s' t' hmem =>
+    have hd : DVStep n f s t s' t' := dvStep_sound hmem
+    exact ⟨E1_pres h.e1 hd, E2_pres h.e2 hd, E3_pres h.e3 hd, C1_pres h.c1 hd, I7_pres h.c1 h.i7 hd,
+      I5_pres h.i5 hd, I6_pres h.e1 h.i6 hd, I4_pres h.e2 h.i5 h.i4 hd, I3_pres h.e3 h.i3 hd,
+      I2_pres h.i3 h.i4 h.i6 h.i7 h.i2 hd, I1_pres h.i1 hd, P_pres h.p hd⟩
+
+/-- Initial configurations: all locks free, only idle writers and constructors that have not started. -/
+theorem Inv_init (s : DVS) (ts : List DVT)
+    (hts : ∀ u ∈ ts, (∃ r, u = DVT.cIdle r ∧ ∀ j ∈ r, j < n) ∨ ∃ sc, u = DVT.idle sc)
+    (hu : ∀ j, s.upd j = false) (he : ∀ j, s.ex j = false) (hd : s.dUpd = false)
+    (h7 : I7 n s) (h2 : ∀ j, s.reg j = true → s.seen j = s.val j) (h1 : I1 f s ts) (hp : P n s ts) :
+    Inv n f (s, ts) where
+  e1 := by
+    intro j
+    simp only [hu j, Bool.false_eq_true, if_false]
+    rw [List.countP_eq_zero]
+    intro u hmem
+    rcases hts u hmem with ⟨r, rfl, _⟩ | ⟨sc, rfl⟩ <;> simp [holdsUpd]
+  e2 := by
+    intro j
+    simp only [he j, Bool.false_eq_true, if_false]
+    rw [List.countP_eq_zero]
+    intro u hmem
+    rcases hts u hmem with ⟨r, rfl, _⟩ | ⟨sc, rfl⟩ <;> simp [holdsEx]
+  e3 := by
+    show List.countP holdsD ts = if s.dUpd then 1 else 0
+    simp only [hd, Bool.false_eq_true, if_false]
+    rw [List.countP_eq_zero]
+    intro u hmem
+    rcases hts u hmem with ⟨r, rfl, _⟩ | ⟨sc, rfl⟩ <;> simp [holdsD]
+  c1 := by
+    intro u hmem j hj
+    rcases hts u hmem with ⟨r, rfl, hr⟩ | ⟨sc, rfl⟩
+    · exact hr j hj
+    · simp [ctorTodo] at hj
+  i7 := h7
+  i5 := by
+    intro u hmem j hj
+    rcases hts u hmem with ⟨r, rfl, _⟩ | ⟨sc, rfl⟩ <;> simp [inflight] at hj
+  i6 := by
+    intro u hmem
+    rcases hts u hmem with ⟨r, rfl, _⟩ | ⟨sc, rfl⟩ <;> trivial
+  i4 := by
+    intro u hmem
+    rcases hts u hmem with ⟨r, rfl, _⟩ | ⟨sc, rfl⟩ <;> trivial
+  i3 := by
+    intro u hmem
+    rcases hts u hmem with ⟨r, rfl, _⟩ | ⟨sc, rfl⟩ <;> trivial
+  i2 := fun j hr hne => absurd (h2 j hr) hne
+  i1 := h1
+  p := hp
+
+theorem fin_cases {t : DVT} (h : t.finished = true) : t = DVT.idle [] ∨ t = DVT.cIdle [] := by
+  cases t with
+  | idle sc =>
+    cases sc with
+    | nil => exact Or.inl rfl
+    | cons => simp [DVT.finished] at h
+  | cIdle r =>
+    cases r with
+    | nil => exact Or.inr rfl
+    | cons => simp [DVT.finished] at h
+  | _ => simp [DVT.finished] at h
+
+/-- In a quiescent configuration satisfying the invariant the derived value is up to date. -/
+theorem quiescent_of_inv (hf : ∀ a b : Nat → Int, (∀ j, j < n → a j = b j) → f a = f b)
+    {c : Cfg DVS DVT} (h : Inv n f c) (hq : ∀ t ∈ c.2, t.finished = true) : c.1.d = f c.1.val := by
+  have h1 : c.1.d = f c.1.seen := by
+    rcases h.i1 with h1 | ⟨w, hw, hearly⟩
+    · exact h1
+    · rcases fin_cases (hq w hw) with rfl | rfl <;> simp [ctorEarly] at hearly
+  rw [h1]
+  apply hf
+  intro j hj
+  have hreg : c.1.reg j = true := by
+    rcases h.p j hj with hr | ⟨w, hw, hjw⟩
+    · exact hr
+    · rcases fin_cases (hq w hw) with rfl | rfl <;> simp [ctorTodo] at hjw
+  by_cases e : c.1.seen j = c.1.val j
+  · exact e
+  · obtain ⟨w, hw, hin⟩ := h.i2 j hreg e
+    rcases fin_cases (hq w hw) with rfl | rfl <;> simp [inflight] at hin
+
+end DVar
+open DVar
+
+/-- Main: construction concurrent with writers. -/
+theorem dv_quiescent (n : Nat) (hn : 0 < n) (f : (Nat → Int) → Int)
+    (hf : ∀ a b : Nat → Int, (∀ j, j < n → a j = b j) → f a = f b)
+    (val0 : Nat → Int) (d0 : Int) (writers : List (List (Nat × Int))) (c : Cfg DVS DVT)
+    (hr : Reach (dvSys n f) (DVS.fresh val0 d0, DVT.cIdle (List.range n) :: writers.map DVT.idle) c)
+    (hq : ∀ t ∈ c.2, t.finished = true) :
+    c.1.d = f c.1.val := by
+  refine quiescent_of_inv hf (inv_induction (Inv n f) ?_ Inv_step hr) hq
+  apply Inv_init
+  · intro u hu
+    simp only [List.mem_cons, List.mem_map] at hu
+    rcases hu with rfl | ⟨sc, _, rfl⟩
+    · exact Or.inl ⟨_, rfl, fun j hj => List.mem_range.1 hj⟩
+    · exact Or.inr ⟨sc, rfl⟩
+  · intro j; rfl
+  · intro j; rfl
+  · rfl
+  · intro j hj; simp [DVS.fresh] at hj
+  · intro j hj; simp [DVS.fresh] at hj
+  · refine Or.inr ⟨_, List.mem_cons_self, ?_⟩
+    cases hrn : List.range n with
+    | nil =>
+      have := congrArg List.length hrn
+      simp at this
+      omega
+    | cons a r => rfl
+  · intro j hj
+    exact Or.inr ⟨_, List.mem_cons_self, by simpa [ctorTodo] using hj⟩
+
+/-- Steady state: the derived variable already exists (all `n` callbacks registered, value up to
+date), only writers. -/
+theorem dv_quiescent_steady (n : Nat) (f : (Nat → Int) → Int)
+    (hf : ∀ a b : Nat → Int, (∀ j, j < n → a j = b j) → f a = f b)
+    (val0 : Nat → Int) (writers : List (List (Nat × Int))) (c : Cfg DVS DVT)
+    (hr : Reach (dvSys n f)
+      ({ val := val0, upd := fun _ => false, ex := fun _ => false, reg := fun i => decide (i < n), dUpd := false,
+         d := f val0, seen := val0 }, writers.map DVT.idle) c)
+    (hq : ∀ t ∈ c.2, t.finished = true) :
+    c.1.d = f c.1.val := by
+  refine quiescent_of_inv hf (inv_induction (Inv n f) ?_ Inv_step hr) hq
+  apply Inv_init
+  · intro u hu
+    simp only [List.mem_map] at hu
+    obtain ⟨sc, _, rfl⟩ := hu
+    exact Or.inr ⟨sc, rfl⟩
+  · intro j; rfl
+  · intro j; rfl
+  · rfl
+  · intro j hj; simpa using hj
+  · intro j _; rfl
+  · exact Or.inl rfl
+  · intro j hj
+    exact Or.inl (by simpa using hj)
+
+/-- The hypothesis `0 < n` of `dv_quiescent` is needed: without inputs no callback ever runs, so `d`
+keeps its initial value whatever `f` is. -/
+theorem dv_quiescent_needs_input :
+    ¬ (∀ (f : (Nat → Int) → Int) (val0 : Nat → Int) (d0 : Int) (c : Cfg DVS DVT),
+        Reach (dvSys 0 f) (DVS.fresh val0 d0, [DVT.cIdle (List.range 0)]) c →
+        (∀ t ∈ c.2, t.finished = true) → c.1.d = f c.1.val) := by
+  intro h
+  have h' := h (fun _ => 0) (fun _ => 0) 1 _ (Reach.refl _) (by simp [DVT.finished])
+  simp [DVS.fresh] at h'
 
 end Hive.Derived
